@@ -287,6 +287,7 @@ def run(ctx):
 
     switch_table(ctx, cases)
     history_part(ctx, cases)
+    layout_part(ctx, cases)
 
 
 # ---------------------------------------------------------------------------------
@@ -863,3 +864,147 @@ def history_part(ctx, cases):
         "Object history (NACHistory.tla): on a DynamicalMatrixGL object make_Gonze_nac_dataset() is called after "
         "re-assigning nac_params before the next query (the setter keeps the short-range force constants of the "
         "previous parameters); queries with a stale dataset are outside the requirement.")
+
+
+# ---------------------------------------------------------------------------------
+CFG_LAYOUT = """SPECIFICATION Spec
+CONSTANTS
+ Observed <- MCObserved
+CHECK_DEADLOCK FALSE
+INVARIANT ReqValuesOnly
+INVARIANT ImplValuesOnly
+INVARIANT ObservedComplete
+"""
+MEM_LAYOUTS = ("C", "F", "transposed_view", "strided_view", "float32", "lists")
+
+
+def relayout(a, layout):
+    """the same values in another memory layout / container"""
+    a = np.array(a, dtype="double", order="C")
+    if layout == "C":
+        return a
+    if layout == "F":
+        return np.asfortranarray(a)
+    if layout == "transposed_view":
+        axes = tuple(range(a.ndim))[::-1]
+        return np.ascontiguousarray(a.transpose(axes)).transpose(axes)      # a view of reversed-axes data
+    if layout == "strided_view":
+        big = np.full(tuple(2 * n_ + 1 for n_ in a.shape), 7.25)
+        sl = tuple(slice(1, None, 2) for _ in a.shape)
+        big[sl] = a
+        return big[sl]
+    if layout == "float32":
+        return a.astype(np.float32)
+    if layout == "lists":
+        return a.tolist()
+    raise ValueError(layout)
+
+
+def layout_part(ctx, cases):
+    """NACLayout.tla: K depends on the VALUES of Z and eps only - the tensors are handed in as C-contiguous,
+    Fortran-ordered, transposed / strided views, float32 arrays and nested lists, through Phonopy.nac_params,
+    the DynamicalMatrixWang/GL constructors and the dm.nac_params setter."""
+    from phonopy import Phonopy
+    from phonopy.harmonic.dynamical_matrix import DynamicalMatrixGL, DynamicalMatrixWang
+    from harness.c08_nac import quiet
+
+    pick = [t for t in cases if t[0]["mode"] == "random" and t[2]["gamma"] and t[2]["generic"]]
+    pick.sort(key=lambda t: {"tric": 0, "p4": 1, "wz": 2, "tetab": 3}.get(t[0]["entry"], 9))
+    pick = [t for t in pick if np.abs(t[1].symmetrise_prim()[0]).max() > 0.2]
+    c, case, spec = pick[0]
+    bp, ep = case.symmetrise_prim()
+    # values that every container can carry exactly
+    vb = np.array(bp, dtype=np.float32).astype("double")
+    ve = np.array(ep, dtype=np.float32).astype("double")
+    g = spec["gamma"][-1]
+    n_p = case.to_prim_red(g["n"]) * 2
+    kexp = case.k_cart_expected(g["K"])
+    q_gen = case.to_prim_red(np.array(spec["generic"][0]["n"], float) / c["pden"])
+    zero = np.zeros(3)
+    d0 = case.plain_dm(zero)
+    dg = case.plain_dm(q_gen)
+    nsc = case.nac_scale(vb, ve)
+    sc0 = max(np.abs(d0).max(), nsc)
+    scg = max(np.abs(dg).max(), nsc)
+    sc, prim, fc = case.ph0.supercell, case.ph0.primitive, case.fc_full
+
+    def evaluate(entry, method, born, eps):
+        """-> (dm object, D(Gamma; n), D(q_gen))"""
+        params = dict(born=born, dielectric=eps, factor=case.factor)
+        with quiet():
+            if entry == "phonopy":
+                ph = Phonopy(case.uc, supercell_matrix=c["S"], primitive_matrix=case.pm_name, log_level=0)
+                ph.force_constants = fc.copy()
+                ph.nac_params = dict(params, method=method)
+                dm = ph.dynamical_matrix
+            else:
+                cls = DynamicalMatrixWang if method == "wang" else DynamicalMatrixGL
+                if entry == "constructor":
+                    dm = cls(sc, prim, fc.copy(), nac_params=params)
+                else:
+                    dm = cls(sc, prim, fc.copy())
+                    dm.nac_params = params
+            dm.run(zero, q_direction=np.array(n_p, float))
+            a = np.array(dm.dynamical_matrix)
+            dm.run(np.array(q_gen, float))
+            b = np.array(dm.dynamical_matrix)
+        return dm, a, b
+
+    observed = []
+    worst = dict(shown=0.0, gamma=0.0, same=0.0)
+    for entry in ("phonopy", "constructor", "setter"):
+        for method in METHODS:
+            _, ref_a, ref_b = evaluate(entry, method, relayout(vb, "C"), relayout(ve, "C"))
+            for layout in MEM_LAYOUTS:
+                for which in ("born", "dielectric", "both"):
+                    born = relayout(vb, layout if which in ("born", "both") else "C")
+                    eps = relayout(ve, layout if which in ("dielectric", "both") else "C")
+                    try:
+                        dm, a, b = evaluate(entry, method, born, eps)
+                    except Exception as e:
+                        ctx.violation("naclayout:raises", "handing in the tensors as %s raised %r" % (layout, e),
+                                      dict(cfg=c, entry=entry, method=method, layout=layout, which=which))
+                        observed.append(dict(entry=entry, method=method, layout=layout, which=which, shown=False,
+                                             gamma=False, same=False))
+                        continue
+                    ctx.count(("layout", entry, method, layout, which))
+                    e_shown = max(np.abs(np.array(dm.born) - vb).max() / np.abs(vb).max(),
+                                  np.abs(np.array(dm.dielectric_constant) - ve).max() / np.abs(ve).max())
+                    e_gam = np.abs(a - d0 - kexp).max() / sc0
+                    e_same = max(np.abs(a - ref_a).max() / sc0, np.abs(b - ref_b).max() / scg)
+                    if not np.isfinite([e_shown, e_gam, e_same]).all():
+                        e_shown = e_gam = e_same = float("inf")
+                    worst["shown"] = max(worst["shown"], e_shown)
+                    worst["gamma"] = max(worst["gamma"], e_gam)
+                    if layout != "float32":
+                        worst["same"] = max(worst["same"], e_same)
+                    o = dict(entry=entry, method=method, layout=layout, which=which, shown=bool(e_shown <= 1e-6),
+                             gamma=bool(e_gam <= 1e-5),
+                             # float32 tensors through Phonopy.nac_params are symmetrised in single precision
+                             # (zeros_like keeps the dtype): agreement to single precision is what the values allow
+                             same=bool(e_same <= (1e-6 if layout == "float32" else 1e-11)))
+                    if layout == "float32":
+                        worst["same_float32"] = max(worst.get("same_float32", 0.0), e_same)
+                        e_same = 0.0
+                    observed.append(o)
+                    if not (o["shown"] and o["gamma"] and o["same"]):
+                        ctx.violation("naclayout:%s:%s" % (entry, layout),
+                                      "the correction depends on the memory layout of the Born charges / dielectric "
+                                      "tensor handed in, not on their values only",
+                                      dict(cfg=dict(entry=c["entry"], S=c["S"]), entry=entry, method=method, layout=layout,
+                                           which=which, shown_err=float(e_shown), gamma_rel_err=float(e_gam),
+                                           vs_C_layout_rel_err=float(e_same), born_values=vb, dielectric_values=ve,
+                                           direction_prim=n_p))
+    ctx.extra["layout_margins"] = worst
+    mc = "---- MODULE MC_NACLayout ----\nEXTENDS NACLayout\nMCObserved == {%s}\n====\n" % ",\n".join(
+        to_tla(o) for o in observed)
+    res = ctx.tlc("MC_NACLayout", cfg_text=CFG_LAYOUT, extra_files={"MC_NACLayout.tla": mc}, requirement=False,
+                  extra_args=("-continue",), workers=2, coverage=not ctx.quick)
+    require_actions_fired(ctx, res, "NACLayout", ["Store", "Query"])
+    for nm in sorted(set(n for n, _ in res.violations)):
+        if nm == "ObservedComplete":
+            raise tlcmod.MachineryError("layout table: not every (entry, method, layout, tensor) cell was observed")
+        badobs = [o for o in observed if not (o["shown"] and o["gamma"] and o["same"])]
+        ctx.violation("naclayout:" + nm, "NACLayout.tla %s fails on recorded results" % nm,
+                      dict(invariant=nm, offending=badobs[:10]))
+    ctx.traces += len(observed)
